@@ -29,6 +29,9 @@ enum In {
     TaskBash,
     /// a provider run whose model calls `write` (the agent-loop tool path, its own guard site)
     AgentWrite,
+    /// the shell tool run by a session, under its own name and under its registered alias
+    BashTool,
+    ShellAlias,
     Read,
     Ls,
 }
@@ -40,8 +43,10 @@ fn input(i: In) -> String {
         In::Patch => json!({"tool": "apply_patch", "args": {"patch": "*** Begin Patch\n*** Add File: p.txt\n+p\n*** End Patch"}}).to_string(),
         In::CheckpointCreate => json!({"checkpoint": {"action": "create", "label": "l", "files": ["a.txt"]}}).to_string(),
         In::WriteTimeout0 => json!({"tool": "write", "args": {"path": "t.txt", "content": "T"}, "timeout_ms": 0}).to_string(),
-        In::TaskBash => json!({"tool": "bash", "args": {"command": "echo T > task.txt"}}).to_string(),
+        In::TaskBash => json!({"tool": "bash", "args": {"command": "echo T > task.txt", "cwd": "."}}).to_string(),
         In::AgentWrite => "please write".to_string(),
+        In::BashTool => json!({"tool": "bash", "args": {"command": "echo S > bash.txt", "cwd": "."}}).to_string(),
+        In::ShellAlias => json!({"tool": "shell", "args": {"command": "echo S > alias.txt", "cwd": "."}}).to_string(),
         In::Read => json!({"tool": "read", "args": {"path": "seed.txt"}}).to_string(),
         In::Ls => json!({"tool": "ls", "args": {}}).to_string(),
     }
@@ -52,7 +57,7 @@ fn mutating(i: In) -> bool {
 }
 
 fn logs_side_effects(i: In) -> bool {
-    matches!(i, In::WriteA | In::WriteB | In::Patch | In::WriteTimeout0 | In::AgentWrite)
+    matches!(i, In::WriteA | In::WriteB | In::Patch | In::WriteTimeout0 | In::AgentWrite | In::BashTool | In::ShellAlias)
 }
 
 /// One scripted provider for the whole check (its own runtime); every world uses a fresh key.
@@ -281,15 +286,154 @@ fn run_config(report: &Report, inputs: &[In], bound: usize) {
     report.max_counter("max_choice_points", stats.max_decisions as u64);
     if saw_overlap {
         report.count("configs_with_overlapping_tool_spans", 1);
+    } else if inputs.iter().any(|i| !mutating(*i)) && !stats.capped {
+        // "read-only tools may overlap freely": among all explored interleavings of a read-only tool
+        // with anything else, at least one must have the read-only handler running while the other
+        // execution is in progress - none at all means something serialises them
+        let label = inputs.iter().map(|i| format!("{i:?}")).collect::<Vec<_>>().join("+");
+        report.violation(
+            &format!("C11:read_only_tool_never_overlaps:{label}"),
+            json!({"engine": "S", "harness": "c11.workspace", "inputs": inputs.iter().map(|i| format!("{i:?}")).collect::<Vec<_>>(), "bound": bound, "whole_config": true}),
+            &format!("in none of the {} explored interleavings of {inputs:?} does the read-only tool run while the other execution is in progress", stats.executions),
+        );
     }
     if stats.capped {
         report.not_exhaustive(&format!("{inputs:?}: wall cap hit after {} executions at bound {bound}", stats.executions));
     }
 }
 
+/// Histories with a QUEUED mutation (engine P, real time): a holder that keeps the workspace lock
+/// for a while (a task or a session's shell tool), a second mutation that arrives meanwhile and
+/// has to queue, and what a client can do to the queued one (nothing, cancel it). The holder
+/// itself is the witness: before it ends it looks for the file only the queued mutation writes.
+fn queued_histories(report: &Report) {
+    use std::time::{Duration, Instant};
+    let rt = crate::provx::new_mt_rt();
+    let holder_cmd = "echo h > h.txt; sleep 0.4; if [ -e q.txt ]; then echo overlapped > witness.txt; fi; echo done > h_done.txt";
+    let cases: Vec<(&str, &str, &str)> = ["task", "session_tool"].iter().flat_map(|h| ["task", "session_tool"].iter().flat_map(move |q| ["none", "cancel_queued", "cancel_queued_twice"].iter().map(move |a| (*h, *q, *a)))).collect();
+    cases.par_iter().for_each(|(holder, queued, action)| {
+        if report.over_cap() {
+            return;
+        }
+        let app = crate::provx::App::new(rt.clone(), None);
+        let thread = app.ensure_thread();
+        let wait_file = |name: &str, secs: u64| {
+            let t0 = Instant::now();
+            while !app.root.join(name).exists() && t0.elapsed() < Duration::from_secs(secs) {
+                std::thread::sleep(Duration::from_millis(5));
+            }
+            app.root.join(name).exists()
+        };
+        let start = |kind: &str, cmd: &str, write_tool: bool| -> (String, String) {
+            // returns (kind of id, id)
+            if kind == "task" {
+                let (_, b) = app.request("POST", "/tasks", Some(json!({"tool": "bash", "args": {"command": cmd, "cwd": "."}})));
+                ("task".to_string(), serde_json::from_slice::<Value>(&b).ok().and_then(|v| v["task_id"].as_str().map(|s| s.to_string())).unwrap_or_default())
+            } else {
+                let content = if write_tool { json!({"tool": "write", "args": {"path": "q.txt", "content": "q"}}).to_string() } else { json!({"tool": "bash", "args": {"command": cmd, "cwd": "."}}).to_string() };
+                let (_, b) = app.request("POST", &format!("/threads/{thread}/messages"), Some(json!({"content": content})));
+                ("session".to_string(), serde_json::from_slice::<Value>(&b).ok().and_then(|v| v["session_id"].as_str().map(|s| s.to_string())).unwrap_or_default())
+            }
+        };
+        let (_, hid) = start(holder, holder_cmd, false);
+        if hid.is_empty() || !wait_file("h.txt", 10) {
+            crate::common::machinery_failure(&format!("c11.queued: the {holder} holder did not start"));
+        }
+        let (qkind, qid) = start(queued, "echo q > q.txt", true);
+        if qid.is_empty() {
+            crate::common::machinery_failure(&format!("c11.queued: the queued {queued} was not accepted"));
+        }
+        let cancels = match *action {
+            "cancel_queued" => 1,
+            "cancel_queued_twice" => 2,
+            _ => 0,
+        };
+        for _ in 0..cancels {
+            let uri = if qkind == "task" { format!("/tasks/{qid}/cancel") } else { format!("/sessions/{qid}/cancel") };
+            let _ = app.request("POST", &uri, Some(json!({"reason": "queued"})));
+        }
+        if !wait_file("h_done.txt", 15) {
+            crate::common::machinery_failure("c11.queued: the holder did not finish");
+        }
+        // let the queued one finish too (the log goes quiet)
+        let mut len = app.log_events().len();
+        let mut quiet = 0;
+        let t0 = Instant::now();
+        while quiet < 5 && t0.elapsed() < Duration::from_secs(10) {
+            std::thread::sleep(Duration::from_millis(20));
+            let now = app.log_events().len();
+            quiet = if now == len { quiet + 1 } else { 0 };
+            len = now;
+        }
+        report.eval(Some(&("queued", holder, queued, action)));
+        report.count("queued_histories", 1);
+        if app.root.join("q.txt").exists() {
+            report.count("queued_mutations_that_ran_afterwards", 1);
+        }
+        if app.root.join("witness.txt").exists() {
+            report.violation(
+                &format!("C11:queued_mutation_ran_during_holder:{queued}:{action}"),
+                json!({"engine": "P", "harness": "c11.queued", "holder": holder, "queued": queued, "action": action}),
+                &format!("a {holder} holds the workspace lock (sleep 0.4 between its two writes); the {queued} that arrived meanwhile ({action}) wrote q.txt before the holder ended"),
+            );
+        }
+    });
+    // a holder whose tool call TIMES OUT: the call ends in tool_failed and the lock is released; what
+    // the timed-out execution still does afterwards must not land while the next mutation runs
+    for kind in ["bash", "shell"] {
+        if report.over_cap() {
+            return;
+        }
+        let app = crate::provx::App::new(rt.clone(), None);
+        let thread = app.ensure_thread();
+        let post = |content: String| {
+            let _ = app.request("POST", &format!("/threads/{thread}/messages"), Some(json!({"content": content})));
+        };
+        post(json!({"tool": kind, "args": {"command": "echo h > h.txt; sleep 0.5; echo late > late.txt", "cwd": "."}, "timeout_ms": 100}).to_string());
+        let t0 = Instant::now();
+        while !app.root.join("h.txt").exists() && t0.elapsed() < Duration::from_secs(10) {
+            std::thread::sleep(Duration::from_millis(5));
+        }
+        if !app.root.join("h.txt").exists() {
+            crate::common::machinery_failure("c11.queued: the timed-out holder did not start");
+        }
+        post(json!({"tool": "bash", "args": {"command": "sleep 0.9; if [ -e late.txt ]; then echo overlapped > witness.txt; fi; echo done > h_done.txt", "cwd": "."}}).to_string());
+        let t0 = Instant::now();
+        while !app.root.join("h_done.txt").exists() && t0.elapsed() < Duration::from_secs(15) {
+            std::thread::sleep(Duration::from_millis(10));
+        }
+        if !app.root.join("h_done.txt").exists() {
+            crate::common::machinery_failure("c11.queued: the second mutation did not finish");
+        }
+        report.eval(Some(&("queued", "timed_out_holder", kind)));
+        report.count("queued_histories", 1);
+        let timed_out = app.log_events().iter().any(|e| matches!(&e.kind, EventKind::ToolFailed { error, .. } if error.contains("timeout")));
+        if !timed_out {
+            report.info(format!("c11.queued: the {kind} holder with timeout_ms 100 did not time out"));
+        }
+        if app.root.join("witness.txt").exists() {
+            report.violation(
+                &format!("C11:timed_out_execution_still_mutating:{kind}"),
+                json!({"engine": "P", "harness": "c11.queued", "holder": format!("{kind} tool with timeout_ms 100"), "queued": "session_tool", "action": "none"}),
+                &format!("a {kind} tool call (sleep 0.5 between two writes, timeout_ms 100) ended in tool_failed(timeout) and released the workspace lock; its second write landed 0.4 s later, while the next mutating tool call was running under the lock"),
+            );
+        }
+    }
+}
+
 pub fn replay(report: &Report, case: &Value) {
-    let all = [In::WriteA, In::WriteB, In::Patch, In::CheckpointCreate, In::WriteTimeout0, In::TaskBash, In::AgentWrite, In::Read, In::Ls];
+    let all = [In::WriteA, In::WriteB, In::Patch, In::CheckpointCreate, In::WriteTimeout0, In::TaskBash, In::AgentWrite, In::BashTool, In::ShellAlias, In::Read, In::Ls];
     let inputs: Vec<In> = case["inputs"].as_array().map(|a| a.iter().filter_map(|v| all.iter().copied().find(|i| format!("{i:?}") == v.as_str().unwrap_or(""))).collect()).unwrap_or_default();
+    if case["harness"] == "c11.queued" {
+        rip_kernel::verif::clear();
+        *report.replay_case_slot() = Some(crate::common::normalise_case(case));
+        queued_histories(report);
+        return;
+    }
+    if case["whole_config"] == true {
+        run_config(report, &inputs, case["bound"].as_u64().unwrap_or(1) as usize);
+        return;
+    }
     let prefix: Vec<usize> = case["choice_points_only"].as_array().map(|a| a.iter().filter_map(|v| v.as_u64().map(|x| x as usize)).collect()).unwrap_or_default();
     let rt = Arc::new(tokio::runtime::Builder::new_multi_thread().worker_threads(1).enable_all().build().expect("rt"));
     let (world, actors) = make_world(&rt, &inputs);
@@ -305,7 +449,7 @@ pub fn run(opts: Opts) -> i32 {
     report.set_rule(
         "engine S: every unordered pair (thorough: plus triples at bound 1) of inputs {write a, write b, apply_patch, checkpoint create, write with timeout_ms 0 (ends in tool_failed), a background bash task that writes a file, a provider run whose model calls write (agent-loop tool path), read, \
          ls} as real run_session futures linked to one thread on one engine; all interleavings at workspace-lock / tool-semaphore / guard \
-         and handler span / seq-lock / publish hooks with <=1 (quick) / <=2 (thorough) preemptions; state = distinct executed schedule",
+         and handler span / seq-lock / publish hooks with <=1 (quick) / <=2 (thorough) preemptions; state = distinct executed schedule; every config with a read-only tool must show the read-only handler overlapping the other execution in at least one interleaving; plus 12 real-time histories with a QUEUED mutation (holder task / session shell tool x queued task / session write x {nothing, cancel, cancel twice}) witnessed by the holder itself",
     );
     report.assume("tool handlers run on tokio's blocking pool and a task's child process and pumps on the runtime: the actor waits for them in place (external work never depends on a parked actor)");
     report.assume("a timeout_ms on a tool is an input, not a schedule (the timed-out tool keeps running after tool_failed): see DESIGN.md known limitation");
@@ -316,7 +460,7 @@ pub fn run(opts: Opts) -> i32 {
         return report.finish();
     }
     let tier = report.tier();
-    let all = [In::WriteA, In::WriteB, In::Patch, In::CheckpointCreate, In::WriteTimeout0, In::TaskBash, In::AgentWrite, In::Read, In::Ls];
+    let all = [In::WriteA, In::WriteB, In::Patch, In::CheckpointCreate, In::WriteTimeout0, In::TaskBash, In::AgentWrite, In::BashTool, In::ShellAlias, In::Read, In::Ls];
     let mut configs: Vec<(Vec<In>, usize)> = Vec::new();
     for (i, a) in all.iter().enumerate() {
         for b in &all[i..] {
@@ -336,5 +480,8 @@ pub fn run(opts: Opts) -> i32 {
         }
         run_config(&report, inputs, *bound);
     });
+    // engine P part: the real runtime, no scheduler hooks
+    rip_kernel::verif::clear();
+    queued_histories(&report);
     report.finish()
 }
